@@ -53,6 +53,7 @@ func baseOptions(env *core.Env, i int, r *rand.Rand) sim.Options {
 		Split:       r.Intn(2) == 0,
 		Horizon:     3 * time.Hour,
 		StepBudget:  150000,
+		StoreYield:  r.Intn(2) == 0,
 	}
 }
 
@@ -167,10 +168,10 @@ func registerSim(spec *simSpec) {
 		Level:       spec.Level,
 		Rule:        spec.Rule,
 		Assumptions: append([]string{"simulated API server/kubelet (DESIGN.md 3.1) stand in for kube-apiserver, etcd and the node; one seeded schedule per case at API-call / informer-delivery / tick granularity"}, spec.Assume...),
-		Cases:    func(tier string) int { return spec.own(tier) + spec.own(tier)/3 },
-		Run:      func(env *core.Env, res *core.Result) { runSim(spec, env, res) },
-		Phases:   spec.Phases,
-		RacePkgs: spec.RacePkgs,
+		Cases:       func(tier string) int { return spec.own(tier) + spec.own(tier)/3 },
+		Run:         func(env *core.Env, res *core.Result) { runSim(spec, env, res) },
+		Phases:      spec.Phases,
+		RacePkgs:    spec.RacePkgs,
 	})
 }
 
@@ -193,7 +194,8 @@ func init() {
 			}
 			return simCase{Opt: o, Note: note, Prof: sim.Profile{MinJobConfigs: 1, MaxJobConfigs: 2, MinJobs: 3, MaxJobs: 10, OwnedBias: 92,
 				Policies:       []execution.ConcurrencyPolicy{execution.ConcurrencyPolicyForbid, execution.ConcurrencyPolicyEnqueue, execution.ConcurrencyPolicyEnqueue},
-				MaxConcurrency: 3, Parallel: 15, MaxAttempts: 2, MaxRetryDelay: 3, KillPct: 20, DeletePct: 25, StartAfterPct: 15, Spread: 25, Burst: true, TTL: []int64{5, 30, 120}}}
+				MaxConcurrency: 3, Parallel: 15, MaxAttempts: 2, MaxRetryDelay: 3, KillPct: 20, DeletePct: 25, StartAfterPct: 15, Spread: 25, Burst: true, TTL: []int64{5, 30, 120},
+				LateJobConfigs: 35, ForceRemovePct: 8}}
 		},
 		NonTrivial: func(w *sim.World) bool { return w.Mon.Evals["C05_contended"] > 0 },
 		RacePkgs:   []string{"pkg/execution/controllers/jobqueuecontroller", "pkg/execution/stores/activejobstore", "pkg/utils/atomic", "pkg/execution/util/job"},
@@ -214,7 +216,8 @@ func init() {
 				o.Faults = &sim.RandomFaults{Pct: 10, Kinds: []sim.FaultKind{sim.F500Before, sim.F409Before}, R: rand.New(rand.NewSource(o.Seed ^ 0xfb)), Until: 300}
 			}
 			return simCase{Opt: o, Prof: sim.Profile{MinJobConfigs: 1, MaxJobConfigs: 3, MinJobs: 3, MaxJobs: 10, OwnedBias: 95, Policies: allPolicies,
-				MaxConcurrency: 2, Parallel: 10, MaxAttempts: 2, KillPct: 10, DeletePct: 15, StartAfterPct: 35, Spread: 25, Burst: true, TTL: []int64{5, 30, 120}}}
+				MaxConcurrency: 2, Parallel: 10, MaxAttempts: 2, KillPct: 10, DeletePct: 15, StartAfterPct: 35, Spread: 25, Burst: true, TTL: []int64{5, 30, 120},
+				LateJobConfigs: 25, ForceRemovePct: 12}}
 		},
 		NonTrivial: func(w *sim.World) bool { return w.Mon.Evals["C06"] > 0 },
 	})
@@ -228,7 +231,7 @@ func init() {
 			o := baseOptions(env, i, r)
 			o.Kubelet = sim.KubeletOptions{MaxRun: 10}
 			return simCase{Opt: o, Prof: sim.Profile{MaxJobConfigs: 2, MinJobs: 2, MaxJobs: 7, OwnedBias: 50, Policies: allPolicies, MaxConcurrency: 2,
-				MaxAttempts: 1, StartAfterPct: 75, EditStartAfter: 30, KillPct: 5, DeletePct: 10, Spread: 30, Burst: true, TTL: []int64{10, 60}}}
+				MaxAttempts: 1, StartAfterPct: 75, EditStartAfter: 30, KillPct: 5, DeletePct: 10, Spread: 30, Burst: true, TTL: []int64{10, 60}, LateJobConfigs: 15}}
 		},
 		NonTrivial: func(w *sim.World) bool { return w.Mon.Evals["C07"] > 0 },
 	})
@@ -273,7 +276,7 @@ func init() {
 				o.Faults = &sim.RandomFaults{Pct: 10, Kinds: []sim.FaultKind{sim.F500Before, sim.F409Before, sim.FCrashBefore}, R: rand.New(rand.NewSource(o.Seed ^ 0xfc)), Until: 300, Crashes: 1}
 			}
 			return simCase{Opt: o, Prof: sim.Profile{MaxJobConfigs: 2, MinJobs: 1, MaxJobs: 5, OwnedBias: 50, Policies: allPolicies, MaxConcurrency: 2, Parallel: 50,
-				MaxAttempts: 3, MaxRetryDelay: 10, KillPct: 30, FutureKill: 40, DeletePct: 25, StartAfterPct: 20, PendingTimeout: []int64{-1, 0, 8, 25}, TTL: []int64{20, 100}}}
+				MaxAttempts: 3, MaxRetryDelay: 10, KillPct: 30, FutureKill: 40, ClearKillPct: 25, DeletePct: 25, StartAfterPct: 20, PendingTimeout: []int64{-1, 0, 8, 25}, TTL: []int64{20, 100}}}
 		},
 		NonTrivial: func(w *sim.World) bool { return w.Mon.MaxVersions >= 5 },
 		RacePkgs:   []string{"pkg/execution/controllers/jobcontroller", "pkg/execution/util/job", "pkg/execution/taskexecutor"},
@@ -290,7 +293,7 @@ func init() {
 			o.Kubelet = sim.KubeletOptions{FailRate: 35, NeverSched: 4, LateDie: 4, NeverDie: 4, Flap: 8, ExitOnDelete: 4, MaxRun: 40}
 			o.JobCfg = jobCfg(3600, []int64{0, 15, 900}[r.Intn(3)], []int64{0, 20, 60}[r.Intn(3)])
 			return simCase{Opt: o, Prof: sim.Profile{MaxJobConfigs: 1, MinJobs: 1, MaxJobs: 4, OwnedBias: 30, Policies: []execution.ConcurrencyPolicy{execution.ConcurrencyPolicyAllow}, Parallel: 45,
-				MaxAttempts: 3, MaxRetryDelay: 15, KillPct: 65, FutureKill: 50, DeletePct: 8, StartAfterPct: 15, PendingTimeout: []int64{-1, -1, 0, 6, 20}, ForbidForce: 30, TTL: []int64{600}}}
+				MaxAttempts: 3, MaxRetryDelay: 15, KillPct: 65, FutureKill: 50, ClearKillPct: 35, DeletePct: 8, StartAfterPct: 15, PendingTimeout: []int64{-1, -1, 0, 6, 20}, ForbidForce: 30, TTL: []int64{600}}}
 		},
 		NonTrivial: func(w *sim.World) bool { return w.Mon.Evals["C12"] > 0 },
 	})
@@ -310,7 +313,7 @@ func init() {
 		NonTrivial: func(w *sim.World) bool { return w.Mon.Evals["C13"] > 0 },
 	})
 	registerSim(&simSpec{
-		ID: "C15", Level: "exploration", Quick: 400, Thorough: 20000,
+		ID: "C15", Level: "exploration", Quick: 1200, Thorough: 40000,
 		Rule: "seeded histories of create, start, finish, delete and TTL cleanup of Jobs of 1-3 JobConfigs with the Job and JobConfig caches lagging independently, deletion of the newest Job, restarts; the JobConfig status is compared with the true queued/active sets at every quiescent point and every JobConfig version with its predecessor; " +
 			"non-trivial = a JobConfig whose status changed >= 3 times; distinct = distinct abstract trace",
 		EvalKeys: []string{"C15", "C15_quiescent"},
@@ -321,7 +324,7 @@ func init() {
 				o.Faults = &sim.RandomFaults{Pct: 6, Kinds: []sim.FaultKind{sim.F500Before, sim.F409Before, sim.FCrashBefore, sim.FCrashAfter}, R: rand.New(rand.NewSource(o.Seed ^ 0xfd)), Until: 300, Crashes: 2}
 			}
 			return simCase{Opt: o, Prof: sim.Profile{MinJobConfigs: 1, MaxJobConfigs: 3, MinJobs: 2, MaxJobs: 8, OwnedBias: 95, Policies: allPolicies, MaxConcurrency: 2,
-				MaxAttempts: 2, KillPct: 10, DeletePct: 35, StartAfterPct: 20, Spread: 30, TTL: []int64{3, 15, 60}, Namespaces: []string{"default", "team-a"}}}
+				MaxAttempts: 2, KillPct: 10, DeletePct: 35, StartAfterPct: 20, Spread: 30, TTL: []int64{3, 15, 60}, Namespaces: []string{"default", "team-a"}, LateJobConfigs: 20, ForceRemovePct: 8, TemplateMeta: 20}}
 		},
 		NonTrivial: func(w *sim.World) bool { return w.Mon.MaxJCVersions >= 3 },
 	})
